@@ -47,6 +47,9 @@ pub fn alphabet(g: &Grammar) -> Vec<char> {
                         if *insensitive {
                             set.insert(c.to_ascii_uppercase());
                             set.insert(c.to_ascii_lowercase());
+                            if c.is_ascii() && (c as u8 ^ 0x20) >= 0x20 {
+                                set.insert((c as u8 ^ 0x20) as char);
+                            }
                             // non-ASCII characters that case-fold to ASCII letters (must NOT match)
                             if c.eq_ignore_ascii_case(&'k') {
                                 set.insert('\u{212A}');
@@ -164,7 +167,10 @@ impl<'g, 'a, 'b> Deriver<'g, 'a, 'b> {
                 self.tokens.push(self.out.len());
                 if *insensitive {
                     for c in s.chars() {
-                        if self.src.chance(128) {
+                        if self.src.chance(14) && c.is_ascii() {
+                            // the "bit 5 neighbour": the other case for letters, a near miss for everything else
+                            self.out.push(((c as u8) ^ 0x20) as char)
+                        } else if self.src.chance(128) {
                             self.out.push(c.to_ascii_uppercase())
                         } else {
                             self.out.push(c.to_ascii_lowercase())
@@ -355,7 +361,9 @@ pub enum InputKind {
 /// Build one input for (grammar, rule) from choice bytes.
 pub fn build_input(g: &Grammar, rule: &str, bytes: &[u8], cfg: &InputCfg, alphabet: &[char]) -> (String, InputKind) {
     let mut src = Src::new(bytes);
-    let mode = src.weighted(&[5, 3, 2]);
+    let mode_raw = src.weighted(&[10, 6, 4, 1]);
+    let repeat = mode_raw == 3;
+    let mode = if repeat { 0 } else { mode_raw };
     if mode == 2 {
         let n = src.range(0, 12);
         let mut s = String::new();
@@ -376,6 +384,19 @@ pub fn build_input(g: &Grammar, rule: &str, bytes: &[u8], cfg: &InputCfg, alphab
     }
     let out = std::mem::take(&mut d.out);
     let tokens = std::mem::take(&mut d.tokens);
+    if repeat {
+        // a long periodic input: the derivation repeated (closures, caches and error bookkeeping over many positions)
+        let n = src.range(2, 8);
+        let sep = *src.choose(&["", " ", ",", ";"]);
+        let mut long = String::new();
+        for i in 0..n {
+            if i > 0 {
+                long.push_str(sep);
+            }
+            long.push_str(&out);
+        }
+        return (clip(long, cfg.max_len), InputKind::Derived);
+    }
     if mode == 0 {
         (clip(out, cfg.max_len), InputKind::Derived)
     } else {
